@@ -1,13 +1,18 @@
 (** C11 -- parsed Verilog and bench netlists simulate as the described netlist.  Statements only.
-    Scope: the pure helpers of VerilogTransformer (ranges / bit names, sized constants, concatenation,
-    declarations, port position table and io list) and the bench elaborator, transcribed in
-    Model/VerilogElab.v.  The grammars (text -> tree) and passes 1..2 of VerilogTransformer.module are
-    covered by the differential oracle only -- except for the bench format, whose TEXT level (lexer with lark's keyword /
-    NAME resolution and ignore rule, LALR parser) is transcribed in Model/BenchText.v (theorems C11_bench_lex_render ..
-    C11_bench_text_node_unique below); the full theorem would be
+    Scope, first part: the pure helpers of VerilogTransformer (ranges / bit names, sized constants, concatenation,
+    declarations, port position table and io list) and the bench elaborator, transcribed in Model/VerilogElab.v; the
+    TEXT level of the bench format (lexer with lark's keyword / NAME resolution and ignore rule, LALR parser) is
+    transcribed in Model/BenchText.v (theorems C11_bench_lex_render .. C11_bench_text_node_unique).
+    Last part ("VerilogTransformer.module"): passes 0, 1, 1.5, 2 and the output loop of VerilogTransformer.module
+    transcribed in Model/VerilogModule.v on the circuit-edit model of C09: the elaborated circuit is consistent, its
+    interface is the declared port list, named pin connections are exactly the lines at the instance cells, assigns
+    connect forks for every statement order, branchforks only inserts forks.
+    The Verilog grammar (text -> tree) and the link from the elaborated circuit to the simulated function
 
-      verilog_sem : forall m lib bf c, elab_verilog m lib bf = Some c ->
-                    forall stim, netlist_sem (resolve lib c) stim = module_sem lib m stim. *)
+      verilog_sem : forall m lib bf c, elab_module m lib bf = Some c ->
+                    forall stim, netlist_sem (resolve lib c) stim = module_sem lib m stim
+
+    remain covered by the differential oracle only. *)
 From Coq Require Import List ZArith NArith Bool String Ascii.
 From KV Require Import Model.VerilogElab Proofs.VerilogElabProofs Proofs.BenchProofs Model.BenchText Proofs.BenchTextProofs.
 Import ListNotations.
@@ -161,3 +166,185 @@ Theorem C11_bench_text_node_unique : forall text c i j n m,
   bench_of_text text = Some c -> nth_error (bc_nodes c) i = Some n -> nth_error (bc_nodes c) j = Some m ->
   bn_name n = bn_name m -> is_fork n = is_fork m -> i = j.
 Proof. exact bench_text_node_unique. Qed.
+
+(** ** VerilogTransformer.module: passes 0, 1, 1.5, 2 and the output loop (kyupy/verilog.py:108-214), transcribed in
+    Model/VerilogModule.v on top of the circuit-edit model of C09 (Model/Circuit.v).
+    [elab_module m lib bf] = the Circuit that [module] returns for the tree [m] lark hands to it ([None]: it raises);
+    [lib] = TechLib.cells (pin tables), [bf] = branchforks.  Hypotheses [lib_ok_b] (a pin table numbers inputs and
+    outputs separately without repetition, no cell is called __fork__) and [pins_nodup_b] (the pins of an Instantiation
+    are a Python dict) hold by construction of the Python objects and are evaluated on every real input by the
+    correspondence check. *)
+From KV Require Import Model.Circuit Model.CircuitInv Model.VerilogModule Proofs.VerilogModuleProofs Proofs.VerilogModuleExamples.
+
+(* (a) the result is a consistent circuit graph (C09's invariant, so C09 / C10 apply to it) in which every fork has at
+   most one input line; its io_nodes have no holes if the port list names distinct, directed signals *)
+Theorem C11_module_consistent : forall m lib bf c, lib_ok_b lib = true -> pins_nodup_b m = true ->
+  elab_module m lib bf = Some c -> CInv c /\ SingleDrv c.
+Proof. exact module_consistent. Qed.
+Theorem C11_module_io_live : forall m lib bf c, lib_ok_b lib = true -> pins_nodup_b m = true -> ports_ok_b m = true ->
+  elab_module m lib bf = Some c -> IoLive c.
+Proof. exact module_io_live. Qed.
+(* ... and [ports_ok_b] cannot be dropped: module h (a, a, w); input a; wire w; endmodule  yields io_nodes = [None, a] *)
+Theorem C11_module_io_hole_witness :
+  module_case hole_mod [] false (Some ([("a", "input"); ("a", "__fork__")], [(0, 0, 1, 0)], [None; Some 0]))%string = true /\
+  exists c, elab_module hole_mod [] false = Some c /\ CInv c /\ ~ IoLive c.
+Proof. exact io_hole_witness. Qed.
+
+(* (b) io_nodes = the bits of the declared ports in port-list order, bus bits in declared range order ([nls] = the
+   names of each port, see C11_range_names), each entry the port cell of that name and direction *)
+Theorem C11_module_ports : forall m lib bf c nls, lib_ok_b lib = true -> pins_nodup_b m = true ->
+  elab_module m lib bf = Some c ->
+  VE.port_name_lists (m_ports m) (decls_of m) = Some nls -> NoDup (List.concat nls) ->
+  (forall n, In n (List.concat nls) -> In n (map fst (VE.io_items (decls_of m)))) ->
+  List.length (io c) = List.length (List.concat nls) /\
+  forall k name, nth_error (List.concat nls) k = Some name ->
+    exists n kd, nth_error (io c) k = Some (Some n) /\ In n (nodes c) /\ name_of c n = name /\
+                 kind_of c n = kind_str kd /\ dget name (cells c) = Some n /\ In (name, kd) (VE.io_items (decls_of m)).
+Proof. exact module_ports. Qed.
+
+(* (c) named pin connections.  Output side: the line at pin position pin_index(kind, p) of the instance cell is the only
+   input of the fork named after the connected bit. *)
+Theorem C11_module_pin_out : forall m lib bf c kind inst pins p s idx, lib_ok_b lib = true -> pins_nodup_b m = true ->
+  elab_module m lib bf = Some c ->
+  In (VInst kind inst pins) (m_stmts m) -> In (PName p, VE.SOne s) pins -> lib_pin lib kind (PName p) = Some (idx, true) ->
+  exists n l f s', out_sig_name (decls_of m) s = Some s' /\ dget inst (cells c) = Some n /\ kind_of c n = kind /\
+    out_at c n idx = Some l /\ In l (lines c) /\ l_drv (lst c l) = Some n /\ l_dpin (lst c l) = idx /\
+    l_rdr (lst c l) = Some f /\ dget s' (forks c) = Some f /\ ins_of c f = [Some l].
+Proof. exact module_pin_out. Qed.
+(* Input side: the line at pin position pin_index(kind, p) comes from the fork the bit resolves to -- [SrcName m c f s]:
+   the fork named s, or the single bit of the one-bit bus s, or for s = 1'bX the fork of a fresh constant cell of kind
+   __constX__ -- and with branchforks from the 1:1 fork  <fork>~<inst>/<pin>  whose only input comes from that fork. *)
+Theorem C11_module_pin_in : forall m lib bf c kind inst pins p s idx, lib_ok_b lib = true -> pins_nodup_b m = true ->
+  elab_module m lib bf = Some c ->
+  In (VInst kind inst pins) (m_stmts m) -> In (PName p, VE.SOne s) pins -> lib_pin lib kind (PName p) = Some (idx, false) ->
+  exists n l d, dget inst (cells c) = Some n /\ kind_of c n = kind /\ in_at c n idx = Some l /\ In l (lines c) /\
+    l_rdr (lst c l) = Some n /\ l_rpin (lst c l) = idx /\ l_drv (lst c l) = Some d /\ is_fork (kind_of c d) = true /\
+    if bf then exists f l', dget (branch_name (name_of c f) inst p) (forks c) = Some d /\ ins_of c d = [Some l'] /\
+                            In l' (lines c) /\ l_drv (lst c l') = Some f /\ l_rdr (lst c l') = Some d /\ SrcName m c f s
+    else SrcName m c d s.
+Proof. exact module_pin_in. Qed.
+(* No spurious connections: every line into / out of an instance cell belongs to one of its named pins. *)
+Theorem C11_module_pins_only : forall m lib bf c kind inst pins n l, lib_ok_b lib = true -> pins_nodup_b m = true ->
+  elab_module m lib bf = Some c ->
+  In (VInst kind inst pins) (m_stmts m) -> is_fork kind = false -> dget inst (cells c) = Some n -> In l (lines c) ->
+  (l_rdr (lst c l) = Some n ->
+     exists p s, In (PName p, VE.SOne s) pins /\ lib_pin lib kind (PName p) = Some (l_rpin (lst c l), false)) /\
+  (l_drv (lst c l) = Some n ->
+     exists p s s' f, In (PName p, VE.SOne s) pins /\ lib_pin lib kind (PName p) = Some (l_dpin (lst c l), true) /\
+                      out_sig_name (decls_of m) s = Some s' /\ dget s' (forks c) = Some f /\ l_rdr (lst c l) = Some f).
+Proof. exact module_pins_only. Qed.
+(* That statement was FALSE for the code before commit afee8a5 ([elab_module_old]: the output loop overwrote `name` with
+   f'{name}[0]' and then looked the CELL up under that name too, c.cells[f'{name}[0]']):
+   module q (a, z); input a; output z; wire w; BUF_X1 \z[0] (.A(a), .Z(w)); BUF_X1 g2 (.A(w), .Z(z[0])); endmodule
+   gave the buffer instance z[0] a line on input pin 1 that no pin connection asks for and left port z unconnected
+   (first conjunct: the circuit the old code built). *)
+Theorem C11_module_bit0_lookup_refuted :
+  module_case_gen elab_module_old quirk_mod quirk_lib false
+    (Some ([("z[0]", "BUF_X1"); ("w", "__fork__"); ("g2", "BUF_X1"); ("z[0]", "__fork__"); ("a", "input"); ("a", "__fork__");
+            ("z", "output")],
+           [(0, 0, 1, 0); (2, 0, 3, 0); (4, 0, 5, 0); (5, 0, 0, 0); (1, 0, 2, 0); (3, 0, 0, 1)], [Some 4; Some 6]))%string = true /\
+  exists c n l, elab_module_old quirk_mod quirk_lib false = Some c /\ dget "z[0]" (cells c) = Some n /\ In l (lines c) /\
+    l_rdr (lst c l) = Some n /\ l_rpin (lst c l) = 1 /\
+    forall p s, In (PName p, SOne s) [(PName "A", SOne "a"); (PName "Z", SOne "w")]%string ->
+                lib_pin quirk_lib "BUF_X1" (PName p) <> Some (1, false).
+Proof. exact bit0_quirk_witness. Qed.
+(* ... and the repaired loop on the same module: model = the circuit the current code builds; output port z (node 6) is read
+   from the fork z[0] by line 5, its only input; the buffer z[0] has only the line of its pin A *)
+Theorem C11_module_bit0_lookup_fixed :
+  module_case quirk_mod quirk_lib false
+    (Some ([("z[0]", "BUF_X1"); ("w", "__fork__"); ("g2", "BUF_X1"); ("z[0]", "__fork__"); ("a", "input"); ("a", "__fork__");
+            ("z", "output")],
+           [(0, 0, 1, 0); (2, 0, 3, 0); (4, 0, 5, 0); (5, 0, 0, 0); (1, 0, 2, 0); (3, 0, 6, 0)], [Some 4; Some 6]))%string = true /\
+  exists c, elab_module quirk_mod quirk_lib false = Some c /\ OutPort c "z" /\
+    exists f n, dget "z" (forks c) = None /\ dget "z[0]" (forks c) = Some f /\ dget "z" (cells c) = Some n /\
+                ins_of c n = [Some 5] /\ l_drv (lst c 5) = Some f /\ l_rdr (lst c 5) = Some n /\
+                exists b, dget "z[0]" (cells c) = Some b /\ ins_of c b = [Some 3].
+Proof. exact bit0_fixed. Qed.
+
+(* (d) continuous assigns, bit by bit and for every statement order: a line between the forks of the two bits (from the
+   source, or from the target when the target was driven first), or a constant cell driving the target's fork; by
+   C11_module_consistent that line is the ONLY input of the fork it enters.  A pair is skipped only when, after the
+   retry loop (fix 7f5c8c9) stopped making progress, neither side names a driven signal ([Unres], in the circuit [c3]
+   after pass 1.5). *)
+Theorem C11_module_assign : forall m lib bf c, lib_ok_b lib = true -> pins_nodup_b m = true ->
+  elab_module m lib bf = Some c ->
+  exists c3 k3, elab_assigns m lib = Some (c3, k3) /\ ext c3 c /\
+    forall ts, In ts (assign_pairs (decls_of m) (m_stmts m)) -> Resolved c ts \/ Unres c3 ts.
+Proof. exact module_assign. Qed.
+(* output ports: the port cell of output nm is read from the fork called nm, or -- a port driven through its bit 0,
+   `output z` with z[0] connected (fix afee8a5) -- from the fork called nm[0] when there is no fork nm.
+   [OutPort c nm] = exists fn f n l, (fn = nm \/ fn = nm[0] /\ no fork nm) /\ forks[fn] = f /\ cells[nm] = n /\ line l : f -> n *)
+Theorem C11_module_outputs : forall m lib bf c nm, lib_ok_b lib = true -> pins_nodup_b m = true ->
+  elab_module m lib bf = Some c ->
+  In (nm, VE.KOutput) (VE.io_items (decls_of m)) ->
+  dget nm (forks c) <> None \/ dget (nm ++ "[0]")%string (forks c) <> None -> OutPort c nm.
+Proof. exact module_outputs. Qed.
+
+(* a module with a bus port, concatenations, a sized constant, an assign chain written backwards and two instances:
+   the model equals the real circuits (both branchforks settings) and all hypotheses above are satisfiable *)
+Theorem C11_module_example : module_case ex_mod ex_lib false (Some ex_view_false) = true /\
+  module_case ex_mod ex_lib true (Some ex_view_true) = true /\
+  lib_ok_b ex_lib = true /\ pins_nodup_b ex_mod = true /\ ports_ok_b ex_mod = true.
+Proof. exact ex_elab. Qed.
+Theorem C11_module_example_theorems : forall bf, exists c, elab_module ex_mod ex_lib bf = Some c /\ CInv c /\ SingleDrv c /\ IoLive c /\
+  List.length (io c) = 5 /\ PinIn ex_mod bf c "u1" "A2" "b" 1 /\ PinOut ex_mod c "u2" "Z" "y[0]" 0 /\
+  (exists c3 k3, elab_assigns ex_mod ex_lib = Some (c3, k3) /\
+     (Resolved c ("y[1]", "v")%string \/ Unres c3 ("y[1]", "v")%string) /\ (Resolved c ("v", "w")%string \/ Unres c3 ("v", "w")%string)).
+Proof. exact ex_theorems. Qed.
+
+(* (e) branchforks only inserts forks.  On the named view of a circuit ([nodesK]: (name, is a fork) and kind per node in
+   creation order; [edges]: (driver, pin, reader, pin) per line in creation order) the two elaborations are related by
+   [BfRel]: the same nodes and lines are created in the same order, except that each reader line
+   fork --j--> (cell, idx) of pass 2 becomes a new fork b and the two lines fork --j--> (b, 0), b --0--> (cell, idx);
+   io_nodes are the same objects.  Side condition [no_tilde_b]: no signal on a reader pin and no declared bit name
+   contains '~' -- without it the statement is FALSE for the code (a signal that is called like a generated branch fork
+   <fork>~<inst>/<pin> is captured by `if s not in c.forks`), see the refutation witness below. *)
+From KV Require Import Proofs.VerilogBranchforks.
+Theorem C11_module_branchforks : forall m lib cF cT, lib_ok_b lib = true -> pins_nodup_b m = true -> no_tilde_b m = true ->
+  elab_module m lib false = Some cF -> elab_module m lib true = Some cT ->
+  BfRel (nodesK cF, edges cF) (nodesK cT, edges cT) /\ io cF = io cT.
+Proof. exact module_branchforks. Qed.
+(* [BfRel] read as sets: every node of the plain circuit is a node of the other; every additional node is a fork that
+   splits one line of the plain circuit ([split_of e b]: e = (f, j, n, idx) is replaced by (f, j, b, 0) and (b, 0, n, idx));
+   every line is kept or split; every additional line is a half of such a split; #added forks = #added lines *)
+Theorem C11_module_branchforks_sets : forall x y, BfRel x y ->
+  (forall k, In k (fst x) -> In k (fst y)) /\
+  (forall k, In k (fst y) -> In k (fst x) \/ exists b e, k = ((b, true), FORK) /\ In e (snd x) /\ split_of e b (fst y) (snd y)) /\
+  (forall e, In e (snd x) -> In e (snd y) \/ exists b, split_of e b (fst y) (snd y)) /\
+  (forall e, In e (snd y) -> In e (snd x) \/
+     exists f j b n idx, In (f, j, n, idx) (snd x) /\ split_of (f, j, n, idx) b (fst y) (snd y) /\
+                         (e = (f, j, (b, true), 0) \/ e = ((b, true), 0, n, idx))) /\
+  List.length (fst y) + List.length (snd x) = List.length (fst x) + List.length (snd y).
+Proof. exact bfrel_sets. Qed.
+(* the example module satisfies the side condition (4 reader pins: 4 added forks and 4 added lines, cf. ex_view_true) *)
+Theorem C11_module_branchforks_example : no_tilde_b ex_mod = true /\
+  exists cF cT, elab_module ex_mod ex_lib false = Some cF /\ elab_module ex_mod ex_lib true = Some cT /\
+    BfRel (nodesK cF, edges cF) (nodesK cT, edges cT) /\
+    List.length (nodesK cT) = List.length (nodesK cF) + 4 /\ List.length (edges cT) = List.length (edges cF) + 4.
+Proof. exact ex_branchforks. Qed.
+(* the side condition is needed:
+   module t (a, y, z); input a; output y, z; wire \a~u2/A ; BUF_X1 u2 (.A(a), .Z(y)); BUF_X1 u3 (.A(\a~u2/A ), .Z(z)); endmodule
+   -- u3 reads an undriven signal without branch forks and port a with branch forks (both conjuncts: model = real Circuit). *)
+Theorem C11_module_branchforks_name_clash_refuted :
+  module_case tilde_mod quirk_lib false
+    (Some ([("u2", "BUF_X1"); ("y", "__fork__"); ("u3", "BUF_X1"); ("z", "__fork__"); ("a", "input"); ("a", "__fork__");
+            ("y", "output"); ("z", "output"); ("a~u2/A", "__fork__")],
+           [(0, 0, 1, 0); (2, 0, 3, 0); (4, 0, 5, 0); (5, 0, 0, 0); (8, 0, 2, 0); (1, 0, 6, 0); (3, 0, 7, 0)],
+           [Some 4; Some 6; Some 7]))%string = true /\
+  module_case tilde_mod quirk_lib true
+    (Some ([("u2", "BUF_X1"); ("y", "__fork__"); ("u3", "BUF_X1"); ("z", "__fork__"); ("a", "input"); ("a", "__fork__");
+            ("y", "output"); ("z", "output"); ("a~u2/A", "__fork__"); ("a~u2/A~u3/A", "__fork__")],
+           [(0, 0, 1, 0); (2, 0, 3, 0); (4, 0, 5, 0); (5, 0, 8, 0); (8, 0, 0, 0); (8, 1, 9, 0); (9, 0, 2, 0); (1, 0, 6, 0);
+            (3, 0, 7, 0)], [Some 4; Some 6; Some 7]))%string = true.
+Proof. exact branchforks_name_clash_witness. Qed.
+
+(* the pin tables of all five libraries of techlib.py -- derived from the library source text by the translator
+   (Gen/TechLibs.v, [lib_pins_of]) and compared with TechLib.cells on every run -- satisfy [lib_ok_b] *)
+From KV Require Import Model.TechCell Gen.TechLibs Model.VerilogLibPins Proofs.VerilogLibPinsProofs.
+Theorem C11_module_libs_ok : forallb (fun nl => lib_ok_b (lib_pins_of (snd nl))) all_libs = true.
+Proof. exact all_libs_pins_ok. Qed.
+
+(* VerilogTransformer.instantiation builds the pin dict ([mk_pins], compared with the real method on every run): its
+   keys are distinct, i.e. [pins_nodup_b] holds for what the parser hands to module *)
+Theorem C11_module_pin_dict : forall l, NoDup (map fst (mk_pins l)).
+Proof. exact mk_pins_nodup. Qed.
